@@ -99,6 +99,45 @@ class FlowNoUpdate(object):
         return True
 
 
+class FeeNoFlow(object):
+    """user-style algo: a charge (or rebate) booked against the strategy on every call - a non-flow adjustment, i.e. P&L"""
+
+    def __init__(self, amount):
+        self.amount = amount
+
+    def __call__(self, target):
+        target.adjust(-self.amount, flow=False)
+        return True
+
+
+class TradeNoUpdate(object):
+    """user-style algo: trades with update=False and relies on the backtest's closing update (lazy-update protocol)"""
+
+    def __init__(self, child, frac, how="allocate"):
+        self.child = child
+        self.frac = frac
+        self.how = how
+
+    def __call__(self, target):
+        px = target.universe.loc[target.now, self.child]
+        if not (px == px) or px <= 0:
+            return True
+        amount = self.frac * target.value
+        if self.how == "transact":
+            target.transact(amount / px, child=self.child, update=False)
+        else:
+            target.allocate(amount, child=self.child, update=False)
+        return True
+
+
+class UpdateSelf(object):
+    """user-style algo (as in the repository's pairs-trading example): a sub-strategy's stack ends by updating the sub-strategy itself"""
+
+    def __call__(self, target):
+        target.update(target.now)
+        return True
+
+
 class Const(object):
     def __init__(self, v):
         self.v = v
@@ -276,6 +315,12 @@ def mk_algo(bt, a, spec, frames):
         return SetCash(p["c"])
     if name == "FlowNoUpdate":
         return FlowNoUpdate(p["amount"])
+    if name == "FeeNoFlow":
+        return FeeNoFlow(p["amount"])
+    if name == "TradeNoUpdate":
+        return TradeNoUpdate(p["child"], p["frac"], p.get("how", "allocate"))
+    if name == "UpdateSelf":
+        return UpdateSelf()
     if name == "Const":
         return Const(p["v"])
     if name == "Probe":
@@ -400,7 +445,7 @@ def mk_backtest(bt, spec, fee=None, frames=None, strategy=None, data=None):
     kw = {}
     if "initial_capital" in spec:
         kw["initial_capital"] = spec["initial_capital"]
-    b = bt.Backtest(strategy, data, integer_positions=spec.get("integer_positions", True), commissions=fee, additional_data=add or None, progress_bar=False, **kw)
+    b = bt.Backtest(strategy, data, integer_positions=spec.get("integer_positions", True), commissions=fee, additional_data=add or None, progress_bar=bool(spec.get("progress_bar", False)), **kw)
     return b
 
 
